@@ -109,6 +109,7 @@ class Ctx:
         self.pos = 0
         self.cache = {}  # term id -> (term, value)
         self.defd = []  # (tag, where, cond)
+        self.defd_stamp = []  # fresh-variable counter when the obligation was raised
         self.sqrt_cache = {}
         self.cbrt_cache = {}
         self.circ = {}
@@ -235,11 +236,13 @@ class Ctx:
         if isinstance(cond, bool):
             if not cond:
                 self.defd.append((tag, _where(), z3.BoolVal(False)))
+                self.defd_stamp.append(self.nfresh)
             return z3.BoolVal(cond)
         c = z3.simplify(cond)
         if z3.is_true(c):
             return c
         self.defd.append((tag, _where(), c))
+        self.defd_stamp.append(self.nfresh)  # only values created before the operation can matter for it
         return c
 
 
